@@ -6,7 +6,7 @@ def plan(tier, seed):
     import sys, os
     ndocs = 16
     docs = list(range(ndocs)) if tier != 'quick' else list(range(ndocs))
-    mats_r = ['s1', 'n1', 's2'] + (['n3'] if tier != 'quick' else [])
+    mats_r = ['s1', 'n1', 's2', 'wrap', 'twice'] + (['n3'] if tier != 'quick' else [])
     mats_i = ['s1', 'n1'] + (['n3'] if tier != 'quick' else [])
     units = []
     for di in docs:
